@@ -122,6 +122,10 @@ class Ctx:
                 if signature not in [k["signature"] for k in self.known_hits]:
                     self.known_hits.append(dict(signature=signature, what=f.get("what", what)))
                 return False
+        for v in self.violations:
+            if v["signature"] == signature:
+                v["count"] = v.get("count", 1) + 1
+                return True
         n = len(self.violations)
         path = os.path.join(VERIF, "evidence", "replays", "%s-%d-%d.json" % (self.id, self.seed, n))
         replay_obj = dict(replay_obj)
@@ -148,7 +152,7 @@ class Ctx:
         shutil.rmtree(self.scratch, ignore_errors=True)
         for v in self.violations:
             print("VIOLATION property=%s replay=%s" % (self.id, v["replay"]))
-            print("  %s: %s" % (v["signature"], v["what"]))
+            print("  %s: %s (x%d)" % (v["signature"], v["what"], v.get("count", 1)))
         if self.violations:
             sys.exit(1)
         print("OK property=%s tier=%s seed=%d states=%d transitions=%d traces=%d wall=%.1fs" % (
@@ -183,6 +187,14 @@ class Ctx:
         """Build /verif/harness/cmd/<cmd> against /repo's working tree with the hooks enabled."""
         out = os.path.join(self.scratch, cmd + ("-race" if race else ""))
         args = ["go", "build", "-tags", tags]
+        alt = os.environ.get("VERIF_REPO")   # mutation trials only: build against a scratch worktree
+        if alt:
+            mod = os.path.join(self.scratch, "alt.mod")
+            src = open(os.path.join(VERIF, "harness", "go.mod")).read()
+            open(mod, "w").write(src.replace("=> /repo", "=> " + alt))
+            shutil.copy(os.path.join(VERIF, "harness", "go.sum"), os.path.join(self.scratch, "alt.sum"))
+            args += ["-modfile", mod]
+            self.log("NOTE: building against VERIF_REPO=%s (mutation trial; not evidence)" % alt)
         if race:
             args.append("-race")
         args += ["-o", out, "./cmd/" + cmd]
@@ -425,7 +437,7 @@ def main(run_fn_loader):
     pid, tier = sys.argv[1], sys.argv[2]
     replay = None
     if "--replay" in sys.argv:
-        replay = sys.argv[sys.argv.index("--replay") + 1]
+        replay = os.path.abspath(sys.argv[sys.argv.index("--replay") + 1])
     os.environ["VERIF_TIER"] = tier
     ctx = Ctx(pid, tier, replay=replay)
     try:
